@@ -120,6 +120,31 @@ Fixpoint can_run (lens : list nat) (prog : list instr) : bool :=
 (* send to every target, in target order / receive from every target, in target order *)
 Definition sends (targets : list nat) (payload : nat -> C) : list instr := map (fun i => Send i (payload i)) targets.
 Definition recvs (targets : list nat) : list instr := map Recv targets.
+Definition method_prog (c : list nat * (nat -> C)) : list instr := sends (fst c) (snd c) ++ recvs (fst c).
+Definition history_prog (calls : list (list nat * (nat -> C))) : list instr := flat_map method_prog calls.
+(* ---- the DummyVecEnv way of running a method over target sub-environments:
+        for i in targets: results.append(handle(env_i, command_i)), threading the env states ---- *)
+Fixpoint dloop (sts : list W) (ts : list nat) (payload : nat -> C) : list W * list R :=
+  match ts with
+  | [] => (sts, [])
+  | t :: r =>
+      match nth_error sts t with
+      | Some s => let '(s', x) := wstep s (payload t) in
+                  let '(sts', xs) := dloop (set_nth t s' sts) r payload in (sts', x :: xs)
+      | None => dloop sts r payload
+      end
+  end.
+(* a history of method calls (targets, commands): the values returned, tagged with the sub-environment *)
+Fixpoint dhistory (sts : list W) (calls : list (list nat * (nat -> C))) : list W * list (nat * R) :=
+  match calls with
+  | [] => (sts, [])
+  | (ts, p) :: r =>
+      let '(sts1, xs) := dloop sts ts p in
+      let '(sts2, lg) := dhistory sts1 r in (sts2, combine ts xs ++ lg)
+  end.
+(* the replies that belong to worker i among the replies xs to the targets ts *)
+Definition proj_replies (i : nat) (ts : list nat) (xs : list R) : list R :=
+  map snd (filter (fun p => Nat.eqb (fst p) i) (combine ts xs)).
 End Protocol.
 
 Arguments instr : clear implicits.
@@ -151,32 +176,35 @@ Definition model_skel_targets (k : cmdkind) : list phase := [SendEach false k; R
 
 (* ---------- instance: scripted sub-environments in the workers ---------- *)
 Inductive scmd :=
-  | CmdStep (a : Z) | CmdReset (seed opt : option Z) | CmdGetAttr | CmdSetAttr (v : Z) | CmdEnvMethod (arg : Z) | CmdOther.
+  | CmdStep (a : Z) | CmdReset (seed opt : option Z) | CmdGetAttr | CmdSetAttr (v : Z) | CmdEnvMethod (arg : Z) | CmdIsWrapped | CmdOther.
 Inductive sres :=
   | ResStep (out : Z * Z * bool * Z * bool * option Z) (ri : option Z)
   | ResReset (obs : Z) (ri : option Z)
-  | ResAttr (v : Z) | ResNone | ResMethod (env_id : Z) (arg : Z).
+  | ResAttr (v : Z) | ResNone | ResMethod (env_id : Z) (arg : Z) | ResBool (b : bool).
 (* worker-local variables: env, reset_info, plus the attribute the harness reads/writes and the env id *)
-Record wstate := mk_wstate { ws_env : senv; ws_ri : option Z; ws_attr : Z; ws_id : Z }.
+(* ws_wrapped: the sub-environment is wrapped with the gym wrapper class asked for by env_is_wrapped *)
+Record wstate := mk_wstate { ws_env : senv; ws_ri : option Z; ws_attr : Z; ws_id : Z; ws_wrapped : bool }.
 
 Definition sworker_step (w : wstate) (c : scmd) : wstate * sres :=
   match c with
   | CmdStep a =>
       let '(e, ri, out, _) := sub_step sc_step sc_reset (ws_env w) (ws_ri w) a in
-      (mk_wstate e ri (ws_attr w) (ws_id w), ResStep (sout_tuple out) ri)
+      (mk_wstate e ri (ws_attr w) (ws_id w) (ws_wrapped w), ResStep (sout_tuple out) ri)
   | CmdReset seed opt =>
       let '(e, ri, obs, _) := sub_reset (A:=Z) sc_reset (ws_env w) seed opt in
-      (mk_wstate e ri (ws_attr w) (ws_id w), ResReset obs ri)
+      (mk_wstate e ri (ws_attr w) (ws_id w) (ws_wrapped w), ResReset obs ri)
   | CmdGetAttr => (w, ResAttr (ws_attr w))
-  | CmdSetAttr v => (mk_wstate (ws_env w) (ws_ri w) v (ws_id w), ResNone)
+  | CmdSetAttr v => (mk_wstate (ws_env w) (ws_ri w) v (ws_id w) (ws_wrapped w), ResNone)
   | CmdEnvMethod arg => (w, ResMethod (ws_id w) arg)
+  | CmdIsWrapped => (w, ResBool (ws_wrapped w))
   | CmdOther => (w, ResNone)
   end.
 
 (* calls of the harness: VecEnv ops + attribute / method calls over index subsets *)
 Inductive call :=
   | KaReset | KaStep (acts : list Z) | KaSeed (s : Z) | KaSetOptions (os : list (option Z))
-  | KaGetAttr (targets : list nat) | KaSetAttr (v : Z) (targets : list nat) | KaEnvMethod (arg : Z) (targets : list nat).
+  | KaGetAttr (targets : list nat) | KaSetAttr (v : Z) (targets : list nat) | KaEnvMethod (arg : Z) (targets : list nat)
+  | KaIsWrapped (targets : list nat).
 
 (* parent-side bookkeeping shared with DummyVecEnv (base class): pending seeds / options *)
 Fixpoint calls_prog (n : nat) (seeds opts : list (option Z)) (cs : list call) : list (instr scmd) :=
@@ -191,10 +219,36 @@ Fixpoint calls_prog (n : nat) (seeds opts : list (option Z)) (cs : list call) : 
   | KaGetAttr ts :: r => skel_prog n ts (fun _ _ => CmdGetAttr) (model_skel_targets KGetAttr) ++ calls_prog n seeds opts r
   | KaSetAttr v ts :: r => skel_prog n ts (fun _ _ => CmdSetAttr v) (model_skel_targets KSetAttr) ++ calls_prog n seeds opts r
   | KaEnvMethod a ts :: r => skel_prog n ts (fun _ _ => CmdEnvMethod a) (model_skel_targets KEnvMethod) ++ calls_prog n seeds opts r
+  | KaIsWrapped ts :: r => skel_prog n ts (fun _ _ => CmdIsWrapped) (model_skel_targets KIsWrapped) ++ calls_prog n seeds opts r
+  end.
+
+(* the same history as a list of method calls (targets, commands) *)
+Fixpoint calls_methods (n : nat) (seeds opts : list (option Z)) (cs : list call) : list (list nat * (nat -> scmd)) :=
+  match cs with
+  | [] => []
+  | KaReset :: r => (seq 0 n, fun i => CmdReset (nth i seeds None) (nth i opts None)) :: calls_methods n (repeat None n) (repeat None n) r
+  | KaStep acts :: r => (seq 0 n, fun i => CmdStep (nth i acts 0%Z)) :: calls_methods n seeds opts r
+  | KaSeed s :: r => calls_methods n (map (fun i => Some (s + Z.of_nat i)%Z) (seq 0 n)) opts r
+  | KaSetOptions os :: r => calls_methods n seeds os r
+  | KaGetAttr ts :: r => (ts, fun _ => CmdGetAttr) :: calls_methods n seeds opts r
+  | KaSetAttr v ts :: r => (ts, fun _ => CmdSetAttr v) :: calls_methods n seeds opts r
+  | KaEnvMethod a ts :: r => (ts, fun _ => CmdEnvMethod a) :: calls_methods n seeds opts r
+  | KaIsWrapped ts :: r => (ts, fun _ => CmdIsWrapped) :: calls_methods n seeds opts r
+  end.
+Definition call_targets_ok (n : nat) (c : call) : Prop :=
+  match c with
+  | KaGetAttr ts | KaSetAttr _ ts | KaEnvMethod _ ts | KaIsWrapped ts => Forall (fun t => t < n) ts
+  | _ => True
   end.
 
 Definition winit (scs : list script) : list wstate :=
-  map (fun '(i, sc) => mk_wstate (sc, cursor0) None 0%Z (Z.of_nat i)) (combine (seq 0 (length scs)) scs).
+  map (fun '(i, sc) => mk_wstate (sc, cursor0) None 0%Z (Z.of_nat i) false) (combine (seq 0 (length scs)) scs).
+(* with per-env "is wrapped" flags (missing flags = not wrapped) *)
+Definition winitw (scs : list script) (flags : list bool) : list wstate :=
+  map (fun '(i, sc) => mk_wstate (sc, cursor0) None 0%Z (Z.of_nat i) (nth i flags false)) (combine (seq 0 (length scs)) scs).
+(* the DummyVecEnv loop semantics of a whole history, evaluated directly *)
+Definition run_dummy_scripted (scs : list script) (flags : list bool) (cs : list call) : list (nat * sres) :=
+  snd (dhistory sworker_step (winitw scs flags) (calls_methods (length scs) (repeat None (length scs)) (repeat None (length scs)) cs)).
 
 (* a schedule given as a list of choices: choice k picks the (k mod m)-th of the m enabled actions
    (parent first, then workers by index); fuel bounds the run *)
@@ -226,3 +280,8 @@ Definition run_subproc_scripted (scs : list script) (cs : list call) (choices : 
 Definition run_seq_scripted (scs : list script) (cs : list call) : option (list (nat * sres)) :=
   let prog := calls_prog (length scs) (repeat None (length scs)) (repeat None (length scs)) cs in
   option_map s_log (seq_exec sworker_step (sinit (winit scs)) prog).
+(* the same with per-env "is wrapped" flags *)
+Definition run_subproc_scripted_w (scs : list script) (flags : list bool) (cs : list call) (choices : list nat) : nat * list (nat * sres) :=
+  let prog := calls_prog (length scs) (repeat None (length scs)) (repeat None (length scs)) cs in
+  let cfg := run_choices sworker_step (4 * length prog + 4) choices (init prog (winitw scs flags)) in
+  (length (pc cfg), log cfg).
